@@ -74,3 +74,13 @@ Theorem C05_replay_restarts_grace_note :
   served (respond_at evs (CkIssued 1) outage_ans) = false.
 Proof. exact replay_restarts_grace. Qed.
 Print Assumptions C05_replay_restarts_grace_note.
+
+(* The monitor that judges the implementation's fault-sequence histories demands no more than these
+   theorems: started from the trace-derived outage of any browser state satisfying the invariant, it
+   accepts the observations the model predicts along EVERY linear history (the liveness clause "an
+   existing session keeps working during the grace period" included). *)
+From V Require Import CorrProxy Corr_C01 Corr_C01_proofs Corr_C05 Corr_C05_proofs.
+Theorem C05_monitor_accepts_model : forall lower c pol_of host bs st,
+  binv st -> c05_walk lower c (pol_of host) (b_outage st) (bobs lower c pol_of host st bs) = true.
+Proof. exact c05_monitor_accepts_model. Qed.
+Print Assumptions C05_monitor_accepts_model.
